@@ -210,7 +210,14 @@ func init() {
 		sec := c.App("time_parse_sec:"+layout, smt.BV(64), tt)
 		return Tuple{Struct{mkInt(0, 64), fromTerm(sec), (*Value)(nil)}, Iface{}}
 	}
-	intrinsics["time.Parse"] = func(in *Interp, fr *frame, a []Value) (Value, bool) { return parse(in, a[0], a[1]), true }
+	intrinsics["time.Parse"] = func(in *Interp, fr *frame, a []Value) (Value, bool) {
+		if _, ok := a[1].(XStr); ok {
+			// exploded text (a template with a few symbolic bytes): the
+			// real parser runs from its SSA
+			return nil, false
+		}
+		return parse(in, a[0], a[1]), true
+	}
 	intrinsics["time.ParseInLocation"] = func(in *Interp, fr *frame, a []Value) (Value, bool) {
 		if in.zoneID(a[2]) != 0 {
 			if _, ok := a[1].(string); ok {
@@ -323,6 +330,24 @@ func init() {
 //
 //	Unquote(fmt_q(s)) = s          ParseInt(fmt_itoa10(x)) = x
 func init() {
+	// Summary of a pure callee of the repository, on opaque text only:
+	// ETag.UnmarshalText(fmt_q(x)) = x. The byte-level behaviour of the
+	// function itself (what it accepts, what it refuses) is the subject of
+	// C16_ETag / C16_ETagReject / C16_HeaderTag, which run its real code on
+	// every text up to their bound; any other opaque argument falls through
+	// to the real code.
+	intrinsics["(*github.com/emersion/go-webdav/internal.ETag).UnmarshalText"] = func(in *Interp, fr *frame, a []Value) (Value, bool) {
+		ob, ok := a[1].(OBytes)
+		if !ok || ob.T.Op != smt.OpApp || ob.T.Name != "fmt_q" {
+			return nil, false
+		}
+		p, ok := a[0].(*Value)
+		if !ok || p == nil {
+			return nil, false
+		}
+		*p = fromTerm(ob.T.Args[0])
+		return Iface{}, true
+	}
 	intrinsics["strconv.Unquote"] = func(in *Interp, fr *frame, a []Value) (Value, bool) {
 		o, ok := a[0].(OStr)
 		if !ok {
